@@ -519,9 +519,9 @@ pub fn run(args: Args) -> ! {
         rep.violation("fixtures", None, &f);
     }
     let w = workers();
-    let run = run_tape("C15.invalid", &prop_invalid, 2000, args.tier.pick(150_000, 3_000_000), args.seed, w);
+    let run = run_tape("C15.invalid", &prop_invalid, 2000, args.tier.pick(400_000, 6_000_000), args.seed, w);
     finish_run(&mut rep, "invalid", run);
-    let run = run_tape("C15.typed", &prop_typed, 2000, args.tier.pick(60_000, 1_000_000), args.seed, w);
+    let run = run_tape("C15.typed", &prop_typed, 2000, args.tier.pick(200_000, 3_000_000), args.seed, w);
     finish_run(&mut rep, "typed", run);
     for c in ["eof-with-newline", "eof-without-newline", "at-multibyte", "fault-line", "stray-multibyte", "truncation", "mutant", "typed.string", "typed.integer", "typed.array", "typed.table", "typed.array-of-tables", "typed.datetime"] {
         rep.require_class(c);
